@@ -90,11 +90,23 @@ func windowCandidates(sw hydra.Swamp, candidates []treasure.Treasure, beaconType
 	set := candidateKeySet(candidates)
 	out := make([]treasure.Treasure, 0, len(candidates))
 	for _, t := range window {
-		if _, ok := set[t.GetKey()]; ok {
+		if _, ok := set[t.GetKey()]; ok && hasMsgpackBody(t) {
 			out = append(out, t)
 		}
 	}
 	return out, nil
+}
+
+// hasMsgpackBody mirrors the precondition of evaluateNativeBytesFieldFilter:
+// a body-field EQUAL / IN can only match a ByteArray body that carries the
+// msgpack magic prefix. The bucket also decodes prefix-less bodies, so such
+// candidates are dropped here to keep both routes on one definition.
+func hasMsgpackBody(t treasure.Treasure) bool {
+	if t.GetContentType() != treasure.ContentTypeByteArray {
+		return false
+	}
+	body, err := t.GetContentByteArray()
+	return err == nil && isMsgpackEncoded(body)
 }
 
 // applyTimeRange filters candidates by the beacon-type's time field
